@@ -656,6 +656,9 @@ class ExcludeRegionState(object):  # pylint: disable=too-many-instance-attribute
 
         eAxis = self.position.E_AXIS
         priorE = eAxis.current
+        priorX = self.position.X_AXIS.current
+        priorY = self.position.Y_AXIS.current
+        priorZ = self.position.Z_AXIS.current
         if (extruderPosition is not None):
             # Update axis position and convert local var from logical units to millimeters/minute
             extruderPosition = eAxis.setLogicalPosition(extruderPosition)
@@ -699,7 +702,14 @@ class ExcludeRegionState(object):  # pylint: disable=too-many-instance-attribute
             # for Marlin 1.1.9).
             returnCommands = self._processNonMove(cmd, deltaE)
         elif (self.isAnyPointExcluded(*xyPairs)):
+            wasExcluding = self.excluding
             returnCommands = self._processExcludedMove(cmd, deltaE)
+            if (self.excluding and not wasExcluding):
+                # The entering move is suppressed, so the tool physically remains where it was
+                # before this move (lastPosition was captured after the move had been applied)
+                self.lastPosition.X_AXIS.current = priorX
+                self.lastPosition.Y_AXIS.current = priorY
+                self.lastPosition.Z_AXIS.current = priorZ
         elif (self.excluding):
             # Moving from an excluded region into a non-excluded region.
             # Processes the necessary commands to move the tool to the new position specified by the
